@@ -918,4 +918,347 @@ Proof.
         apply (proj1 (filter_nil_forallb _ _)) in X. unfold all_valid in Ev. congruence.
 Qed.
 
+(* ---------------------------------------------------------------- remaining pieces *)
+Lemma elts_hashable (g : pyval -> res) (h : pyval -> sres) l :
+  (forall x, In x l -> agree (g x) (h x)) ->
+  (forall x v, In x l -> h x = SOk v -> hashable v = true) ->
+  forall i vs ch, elts_loop g i l = A3 vs ch None -> all_ok (map h l) = None \/ forallb hashable vs = true.
+Proof.
+  induction l as [|x l IH]; intros Ha Hh i vs ch E; simpl in E.
+  - injection E as <- <-. right. reflexivity.
+  - assert (Hx := Ha x (or_introl eq_refl)).
+    assert (IH' := IH (fun y Hy => Ha y (or_intror Hy)) (fun y v Hy => Hh y v (or_intror Hy)) (S i)).
+    destruct (g x) eqn:G; try discriminate.
+    + destruct (elts_loop g (S i) l) as [vs' ch' [st|]] eqn:El; try discriminate. injection E as <- <-.
+      destruct (IH' vs' ch' eq_refl) as [I|I]; simpl.
+      * left. destruct (h x); [rewrite I; reflexivity| rewrite I; reflexivity|reflexivity].
+      * destruct (h x) eqn:Hhx; simpl in Hx; try contradiction; [|left; reflexivity].
+        subst v0. right. simpl. rewrite (Hh x v (or_introl eq_refl) Hhx), I. reflexivity.
+    + destruct (elts_loop g (S i) l) as [vs' ch' [st|]] eqn:El; try discriminate. injection E as <- <-.
+      destruct (IH' vs' ch' eq_refl) as [I|I]; [|right; exact I]. left. simpl.
+      destruct (h x); rewrite ?I; reflexivity.
+Qed.
+
+Lemma spec_coll_kind fuel acc k t d :
+  sp fuel acc (TColl k t) d =
+  match sp fuel acc (TColl KList t) d with SOk (VList vs) => SOk (wrap_coll k vs) | r => r end.
+Proof.
+  rewrite !spec_TColl. destruct d; try reflexivity.
+  destruct (all_ok _) as [[vs|]|]; try reflexivity.
+  unfold accept. destruct (all_valid _ _); reflexivity.
+Qed.
+
+Lemma spec_list_elems fuel acc t l vs :
+  sp fuel acc (TColl KList t) (PList l) = SOk (VList vs) ->
+  Forall2 (fun x v => sp fuel None t x = SOk v) l vs.
+Proof.
+  rewrite spec_TColl. destruct (all_ok _) as [[vs'|]|] eqn:E; try discriminate.
+  intros H. apply accept_ok in H. injection H as <-. apply all_ok_some. exact E.
+Qed.
+
+Lemma forall2_hashable fuel t l vs :
+  hashable_ty t = true -> Forall2 (fun x v => sp fuel None t x = SOk v) l vs -> forallb hashable vs = true.
+Proof.
+  intros Hh. induction 1 as [|x v l vs Hx _ IH]; simpl; [reflexivity|].
+  rewrite (spec_hashable fuel t None x v Hh Hx), IH. reflexivity.
+Qed.
+
+Lemma get_enum_no_none e :
+  forallb (fun vs => negb (existsb (prim_eqb LNone) vs)) (u_enums u) = true ->
+  existsb (prim_eqb LNone) (get_enum u e) = false.
+Proof.
+  intros H. unfold get_enum. rewrite forallb_forall in H.
+  destruct (nth_in_or_default e (u_enums u) []) as [Hin|Hd]; [|rewrite Hd; reflexivity].
+  apply negb_true_iff. apply H. exact Hin.
+Qed.
+
+Lemma spec_none_value fuel :
+  forallb (fun vs => negb (existsb (prim_eqb LNone) vs)) (u_enums u) = true ->
+  forall t acc v, sp fuel acc t PNone = SOk v -> v = VNone.
+Proof.
+  intros He. induction t using ty_ind'; intros acc v Hs.
+  - rewrite spec_TNone in Hs. injection Hs as <-. reflexivity.
+  - rewrite spec_TBool in Hs. discriminate.
+  - rewrite spec_TInt in Hs. discriminate.
+  - rewrite spec_TFloat in Hs. discriminate.
+  - rewrite spec_TStr in Hs. discriminate.
+  - rewrite spec_TAny in Hs. apply accept_ok in Hs. subst. reflexivity.
+  - rewrite spec_TColl in Hs. discriminate.
+  - rewrite spec_TTuple in Hs. discriminate.
+  - rewrite spec_TMap in Hs. discriminate.
+  - rewrite spec_TLit in Hs. simpl in Hs. destruct (existsb _ vs); [|discriminate]. injection Hs as <-. reflexivity.
+  - rewrite spec_TEnum in Hs. simpl in Hs. rewrite (get_enum_no_none e He) in Hs. discriminate.
+  - rewrite spec_TCon in Hs. eapply IHt. exact Hs.
+  - rewrite spec_TUnion in Hs. apply first_spec_ok in Hs. destruct Hs as [t [Hin Ht]].
+    rewrite Forall_forall in H. eapply H; eassumption.
+  - destruct fuel; [discriminate|]. rewrite spec_TObj_S in Hs. discriminate.
+Qed.
+
+Lemma all_ok_tail_none (r : sres) rs : all_ok rs = None -> all_ok (r :: rs) = None.
+Proof. intros H. simpl. rewrite H. destruct r; reflexivity. Qed.
+
+Lemma map_items_keys (gk gv : pyval -> res) (hk hv : pyval -> sres) kvs :
+  (forall k, agree (gk (PStr k)) (hk (PStr k))) ->
+  forall items ch, map_loop gk gv kvs = (items, ch, None) ->
+  all_ok (map (fun kv => hk (PStr (fst kv))) kvs) = None \/
+  Forall (fun it : value * value => exists k, hk (PStr k) = SOk (fst it)) items.
+Proof.
+  intros Hk. induction kvs as [|[k x] kvs IH]; intros items ch E; simpl in E.
+  - injection E as <- <-. right. constructor.
+  - specialize (Hk k) as Hkk.
+    destruct (gk (PStr k)) eqn:G1; destruct (gv x) eqn:G2; try discriminate;
+      destruct (map_loop gk gv kvs) as [[items' ch'] [st|]] eqn:El; try discriminate; injection E as <- <-;
+      (destruct (IH items' ch' eq_refl) as [I|I]; [left; cbn [map fst]; apply all_ok_tail_none; exact I|]).
+    + destruct (hk (PStr k)) eqn:H1; simpl in Hkk; try contradiction.
+      * subst. right. constructor; [exists k; exact H1|exact I].
+      * left. cbn [map fst all_ok]. rewrite H1. reflexivity.
+    + right. exact I.
+    + right. exact I.
+    + right. exact I.
+Qed.
+
+Lemma types_agree fuel :
+  wf_univ u o = true ->
+  (forall cid acc d, wf_data d = true -> agree (ex fuel (MRec cid acc) d) (sp fuel acc (TObj cid) d)) ->
+  forall t acc d, wf_ty t = true -> union_order_ok t = true -> wf_data d = true ->
+  agree (ex fuel (compile o acc t) d) (sp fuel acc t d).
+Proof.
+  intros Hwfu Hobj.
+  assert (Henum : forallb (fun vs => negb (existsb (prim_eqb LNone) vs)) (u_enums u) = true).
+  { unfold wf_univ in Hwfu. apply andb_true_iff in Hwfu. tauto. }
+  induction t using ty_ind'; intros acc d Hwt Huo Hwd.
+  - cbn [compile]. unfold wrap_coerce. rewrite strict, exec_MNone, spec_TNone. destruct d; auto.
+  - cbn [compile]. unfold wrap_coerce. rewrite strict, exec_MBool, spec_TBool. destruct d; auto.
+  - cbn [compile]. unfold wrap_coerce. rewrite strict, exec_MInt, spec_TInt. destruct d; auto. apply finish_nil.
+  - cbn [compile]. unfold wrap_coerce. rewrite strict, exec_MFloat, spec_TFloat. destruct d; auto; [|apply finish_nil].
+    unfold float_of_int. destruct (Z.ltb _ _); auto. apply finish_nil.
+  - cbn [compile]. unfold wrap_coerce. rewrite strict, exec_MStr, spec_TStr. destruct d; auto. apply finish_nil.
+  - cbn [compile]. rewrite exec_MAny, spec_TAny. unfold any_cons. destruct d; apply finish_nil.
+  - (* collections *)
+    cbn [wf_ty] in Hwt. apply andb_true_iff in Hwt. destruct Hwt as [Hwt Hhash]. cbn [union_order_ok] in Huo.
+    assert (Helt : forall x, wf_data x = true -> agree (ex fuel (compile o None t) x) (sp fuel None t x))
+      by (intros; apply IHt; assumption).
+    (* the list method underlying every collection kind *)
+    assert (ListAgree : agree (ex fuel (if (o_nocopy o && check_only (compile o None t))%bool
+                                        then MListCheck (ocons cons_list acc) (compile o None t)
+                                        else MList (ocons cons_list acc) (compile o None t)) d)
+                              (sp fuel acc (TColl KList t) d)).
+    { destruct (o_nocopy o && check_only (compile o None t))%bool eqn:Eco.
+      - rewrite exec_MListCheck, spec_TColl. destruct d; auto.
+        assert (Ha : forall x, In x l -> agree (ex fuel (compile o None t) x) (sp fuel None t x))
+          by (intros x Hx; apply Helt; eapply wf_data_list; eassumption).
+        pose proof (elts_agree _ _ l Ha O) as E.
+        destruct (elts_loop (ex fuel (compile o None t)) 0 l) as [vs ch [st|]].
+        + destruct E as [->|E]; auto. rewrite E. auto.
+        + destruct (all_ok _) as [[vs'|]|] eqn:Ea; auto.
+          * destruct E as [-> ->].
+            pose proof (finish_nil (PList l) (ocons cons_list acc) (embed (PList l))) as Fn.
+            unfold accept in *. destruct (all_valid _ _) eqn:Ev; [|exact Fn].
+            assert (Hs : sp fuel acc (TColl KList t) (PList l) = SOk (VList vs'))
+              by (rewrite spec_TColl, Ea; unfold accept; rewrite Ev; reflexivity).
+            assert (Hco : check_only (compile o acc (TColl KList t)) = true).
+            { cbn [compile]. unfold wrap_coerce. rewrite strict, Eco. reflexivity. }
+            pose proof (check_only_embed fuel _ _ _ _ Hwd Hco Hs) as Hv.
+            change (wrap_coll KList vs') with (VList vs'). rewrite Hv. exact Fn.
+          * destruct (finish_children (PList l) (ocons cons_list acc) ch (embed (PList l)) E) as [e He]. rewrite He. auto.
+      - rewrite exec_MList, spec_TColl. destruct d; auto.
+        apply (array_result _ _ l (PList l) (ocons cons_list acc) VList).
+        intros x Hx. apply Helt. eapply wf_data_list; eassumption. }
+    cbn [compile]. unfold wrap_coerce. rewrite strict.
+    destruct k.
+    + exact ListAgree.
+    + (* set *)
+      rewrite exec_MSet, spec_TColl. destruct d; auto.
+      assert (Ha : forall x, In x l -> agree (ex fuel (compile o None t) x) (sp fuel None t x))
+        by (intros x Hx; apply Helt; eapply wf_data_list; eassumption).
+      pose proof (elts_agree _ _ l Ha O) as E.
+      pose proof (elts_hashable _ _ l Ha (fun x v _ Hv => spec_hashable fuel t None x v Hhash Hv) O) as Eh.
+      destruct (elts_loop (ex fuel (compile o None t)) 0 l) as [vs ch [st|]].
+      * destruct E as [->|E]; auto. rewrite E. auto.
+      * destruct (Eh vs ch eq_refl) as [Eh'|Eh']; [rewrite Eh'; destruct (forallb hashable vs); auto; destruct (finish _ _ _ _); auto|].
+        rewrite Eh'. destruct (all_ok _) as [[vs'|]|] eqn:Ea; auto.
+        -- destruct E as [-> ->]. apply finish_nil.
+        -- destruct (finish_children (PList l) (ocons cons_list acc) ch (VSet (fold_left set_add vs [])) E) as [e He].
+           rewrite He. auto.
+    + (* frozenset *)
+      rewrite exec_MFrozenSet, spec_coll_kind.
+      destruct (ex fuel _ d) eqn:G; destruct (sp fuel acc (TColl KList t) d) eqn:Hs; simpl in ListAgree; try contradiction; auto.
+      subst v0. destruct d; try (rewrite spec_TColl in Hs; discriminate).
+      assert (exists vs, v = VList vs) as [vs ->].
+      { rewrite spec_TColl in Hs. destruct (all_ok _) as [[vs|]|]; try discriminate. apply accept_ok in Hs. eauto. }
+      rewrite (forall2_hashable fuel t l vs Hhash (spec_list_elems _ _ _ _ _ Hs)). reflexivity.
+    + (* variadic tuple *)
+      rewrite exec_MVarTuple, spec_coll_kind.
+      destruct (ex fuel _ d) eqn:G; destruct (sp fuel acc (TColl KList t) d) eqn:Hs; simpl in ListAgree; try contradiction; auto.
+      subst v0. destruct d; try (rewrite spec_TColl in Hs; discriminate).
+      assert (exists vs, v = VList vs) as [vs ->].
+      { rewrite spec_TColl in Hs. destruct (all_ok _) as [[vs|]|]; try discriminate. apply accept_ok in Hs. eauto. }
+      reflexivity.
+  - (* fixed tuples *)
+    cbn [compile]. unfold wrap_coerce. rewrite strict, exec_MTuple, spec_TTuple. destruct d; auto. cbv zeta.
+    rewrite map_length.
+    destruct (Nat.ltb_spec (List.length l) (List.length ts)) as [L1|L1];
+      [destruct (Nat.eqb_spec (List.length l) (List.length ts)); [lia|simpl; auto]|].
+    destruct (Nat.ltb_spec (List.length ts) (List.length l)) as [L2|L2];
+      [destruct (Nat.eqb_spec (List.length l) (List.length ts)); [lia|simpl; auto]|].
+    assert (Hlen : List.length l = List.length ts) by lia. rewrite Hlen, Nat.eqb_refl. cbn [negb].
+    cbn [wf_ty union_order_ok] in Hwt, Huo.
+    assert (HF : Forall (fun t => forall x, In x l -> agree (ex fuel (compile o None t) x) (sp fuel None t x)) ts).
+    { rewrite Forall_forall in *. intros t Hin x Hx. apply H; [exact Hin|eapply forallb_In; eassumption|eapply forallb_In; eassumption|].
+      eapply wf_data_list; eassumption. }
+    assert (TA : forall ts' l' i, List.length l' = List.length ts' ->
+               Forall (fun t => forall x, In x l' -> agree (ex fuel (compile o None t) x) (sp fuel None t x)) ts' ->
+               match tuple_loop (ex fuel) i (map (compile o None) ts') l' with
+               | A3 _ _ (Some st) => st = RFuel \/ all_ok (zip_spec (sp fuel None) ts' l') = None
+               | A3 vs ch None =>
+                   match all_ok (zip_spec (sp fuel None) ts' l') with
+                   | None => True
+                   | Some None => ch <> []
+                   | Some (Some vs') => ch = [] /\ vs = vs'
+                   end
+               end).
+    { clear. induction ts' as [|t ts' IH]; intros [|x l'] i Hl HF'; simpl in Hl; try discriminate; simpl; [auto|].
+      inversion HF' as [|? ? Ht Hts]; subst. specialize (Ht x (or_introl eq_refl)).
+      assert (IH' := IH l' (S i) ltac:(lia)).
+      assert (Hts' : Forall (fun t0 => forall x0, In x0 l' -> agree (ex fuel (compile o None t0) x0) (sp fuel None t0 x0)) ts').
+      { rewrite Forall_forall in *. intros t0 H0 x0 Hx0. apply Hts; [exact H0|right; exact Hx0]. }
+      specialize (IH' Hts').
+      destruct (ex fuel (compile o None t) x) eqn:G; destruct (sp fuel None t x) eqn:Hh; simpl in Ht; try contradiction; simpl;
+        destruct (tuple_loop (ex fuel) (S i) (map (compile o None) ts') l') as [vs ch [st|]]; simpl;
+        destruct (all_ok (zip_spec (sp fuel None) ts' l')) as [[vs'|]|]; simpl;
+        intuition (try discriminate; try congruence; subst; auto). }
+    specialize (TA ts l O Hlen HF).
+    destruct (tuple_loop (ex fuel) 0 (map (compile o None) ts) l) as [vs ch [st|]].
+    + destruct TA as [->|TA]; auto. rewrite TA. auto.
+    + destruct (all_ok _) as [[vs'|]|]; auto.
+      * destruct TA as [-> ->]. apply finish_nil.
+      * destruct (finish_children (PList l) (ocons cons_list acc) ch (VTuple vs) TA) as [e He]. rewrite He. auto.
+  - (* mappings *)
+    cbn [wf_ty union_order_ok] in Hwt, Huo.
+    apply andb_true_iff in Hwt. destruct Hwt as [Hwt Hkey]. apply andb_true_iff in Hwt. destruct Hwt as [Hw1 Hw2].
+    apply andb_true_iff in Huo. destruct Huo as [Hu1 Hu2].
+    cbn [compile]. unfold wrap_coerce. rewrite strict.
+    assert (Common : forall kvs, d = PDict kvs ->
+              match map_loop (ex fuel (compile o None t1)) (ex fuel (compile o None t2)) kvs with
+              | (_, _, Some st) => st = RFuel \/ sp fuel acc (TMap t1 t2) d = SFuel
+              | (items, ch, None) =>
+                  sp fuel acc (TMap t1 t2) d = SFuel \/
+                  (forallb (fun kv => hashable (fst kv)) items = true /\
+                   ((ch <> [] /\ sp fuel acc (TMap t1 t2) d = SRej) \/
+                    (ch = [] /\
+                     sp fuel acc (TMap t1 t2) d =
+                     accept (ocons cons_dict acc) d (VDict (fold_left (fun a kv => dict_set a (fst kv) (snd kv)) items [])))))
+              end).
+    { intros kvs ->. destruct (wf_data_dict _ Hwd) as [Hnd Hsub].
+      pose proof (map_agree (ex fuel (compile o None t1)) (ex fuel (compile o None t2))
+                            (sp fuel None t1) (sp fuel None t2) kvs) as MA.
+      assert (M1 : forall k, agree (ex fuel (compile o None t1) (PStr k)) (sp fuel None t1 (PStr k)))
+        by (intros; apply IHt1; auto).
+      assert (M2 : forall x, In x (map snd kvs) -> agree (ex fuel (compile o None t2) x) (sp fuel None t2 x)).
+      { intros x Hx. apply in_map_iff in Hx. destruct Hx as [[k x'] [<- Hin]]. apply IHt2; auto. eapply Hsub. exact Hin. }
+      specialize (MA M1 M2).
+      pose proof (map_items_keys (ex fuel (compile o None t1)) (ex fuel (compile o None t2))
+                                 (sp fuel None t1) (sp fuel None t2) kvs M1) as MK.
+      rewrite spec_TMap.
+      destruct (map_loop _ _ kvs) as [[items ch] [st|]].
+      - destruct MA as [->|[MA|MA]]; auto; right; rewrite MA; [reflexivity|].
+        destruct (all_ok (map (fun kv => sp fuel None t1 (PStr (fst kv))) kvs)) as [[?|]|]; reflexivity.
+      - destruct (MK items ch eq_refl) as [MK'|MK']; [left; rewrite MK'; reflexivity|].
+        assert (Hh : forallb (fun kv : value * value => hashable (fst kv)) items = true).
+        { clear - MK' Hkey. induction MK' as [|it items [k Hx] _ IH]; simpl; [reflexivity|]. rewrite IH, andb_true_r.
+          apply orb_true_iff in Hkey. destruct Hkey as [Hk|Hk].
+          - eapply spec_hashable; eassumption.
+          - destruct t1; try discriminate. rewrite spec_TAny in Hx. apply accept_ok in Hx. rewrite <- Hx. reflexivity. }
+        destruct (all_ok (map (fun kv => sp fuel None t1 (PStr (fst kv))) kvs)) as [[ks|]|] eqn:Ek;
+          destruct (all_ok (map (fun kv => sp fuel None t2 (snd kv)) kvs)) as [[vs|]|] eqn:Ev; auto;
+          right; (split; [exact Hh|]); auto.
+        destruct MA as [-> ->]. right. split; reflexivity. }
+    destruct (o_nocopy o && check_only (compile o None t1) && check_only (compile o None t2))%bool eqn:Eco.
+    + rewrite exec_MMapCheck. destruct d; try (rewrite spec_TMap; auto; fail).
+      specialize (Common l eq_refl).
+      destruct (map_loop _ _ l) as [[items ch] [st|]].
+      * destruct Common as [->|C]; auto. rewrite C. auto.
+      * destruct Common as [C|[_ [[Hc C]|[Hc C]]]]; rewrite C; auto.
+        -- destruct (finish_children (PDict l) (ocons cons_dict acc) ch (embed (PDict l)) Hc) as [e He]. rewrite He. auto.
+        -- subst ch. pose proof (finish_nil (PDict l) (ocons cons_dict acc) (embed (PDict l))) as Fn.
+           unfold accept in *. destruct (all_valid _ _) eqn:Ev; [|exact Fn].
+           assert (Hco : check_only (compile o acc (TMap t1 t2)) = true).
+           { cbn [compile]. unfold wrap_coerce. rewrite strict, Eco. reflexivity. }
+           rewrite (check_only_embed fuel _ _ _ _ Hwd Hco C). exact Fn.
+    + rewrite exec_MMap. destruct d; try (rewrite spec_TMap; auto; fail).
+      specialize (Common l eq_refl).
+      destruct (map_loop _ _ l) as [[items ch] [st|]].
+      * destruct Common as [->|C]; auto. rewrite C. auto.
+      * destruct Common as [C|[Hh [[Hc C]|[Hc C]]]]; rewrite C; auto; rewrite Hh.
+        -- destruct (finish_children (PDict l) (ocons cons_dict acc) ch
+                       (VDict (fold_left (fun a kv => dict_set a (fst kv) (snd kv)) items [])) Hc) as [e He]. rewrite He. auto.
+        -- subst ch. apply finish_nil.
+  - (* literal *)
+    cbn [compile]. rewrite strict, exec_MLiteral, spec_TLit. apply literal_agree.
+  - (* enum *)
+    cbn [compile]. rewrite strict, exec_MLiteral, spec_TEnum. apply literal_agree.
+  - (* constraints *)
+    cbn [compile]. rewrite spec_TCon. apply IHt; assumption.
+  - (* unions *)
+    cbn [wf_ty union_order_ok] in Hwt, Huo.
+    apply andb_true_iff in Hwt. destruct Hwt as [Hwt Hne]. apply andb_true_iff in Huo. destruct Huo as [Huo Hfbi].
+    apply negb_true_iff in Hfbi.
+    assert (HA : Forall (fun t => agree (ex fuel (compile o acc t) d) (sp fuel acc t d)) ts).
+    { rewrite Forall_forall in *. intros t Hin. apply H; [exact Hin|eapply forallb_In; eassumption|eapply forallb_In; eassumption|exact Hwd]. }
+    rewrite spec_TUnion.
+    pose proof (compile_union_shape acc ts) as Sh.
+    remember (compile o acc (TUnion ts)) as m eqn:Em. clear Em.
+    destruct Sh as [t1 E|b E Hb|a E Ha|E1 E2|].
+    + subst ts. inversion HA as [|? ? A1 _]; subst. simpl. destruct (sp fuel acc t1 d); auto.
+    + subst ts. inversion HA as [|? ? _ A2]; subst. inversion A2 as [|? ? A2' _]; subst.
+      rewrite exec_MOptional. simpl. rewrite spec_TNone.
+      destruct d; auto; destruct (ex fuel (compile o acc b) _) eqn:G; destruct (sp fuel acc b _) eqn:Hs;
+        simpl in A2'; try contradiction; subst; auto.
+    + subst ts. inversion HA as [|? ? A1 A2]; subst.
+      rewrite exec_MOptional. simpl. rewrite spec_TNone.
+      destruct d; try (destruct (ex fuel (compile o acc a) _) eqn:G; destruct (sp fuel acc a _) eqn:Hs;
+        simpl in A1; try contradiction; subst; auto; fail).
+      destruct (sp fuel acc a PNone) eqn:Hs; auto.
+      rewrite (spec_none_value fuel Henum a acc v Hs). reflexivity.
+    + rewrite (flat_some_eq ts E1) in *. apply bytype_agree; assumption.
+    + rewrite exec_MUnion. apply alts_agree; [exact HA|]. right. destruct ts; [discriminate|discriminate].
+  - (* objects *)
+    cbn [compile]. unfold wrap_coerce. rewrite strict. apply Hobj. exact Hwd.
+Qed.
+
+(* ---------------------------------------------------------------- the main theorem *)
+Theorem exec_spec_agree :
+  wf_univ u o = true ->
+  forall fuel t acc d, wf_ty t = true -> union_order_ok t = true -> wf_data d = true ->
+  agree (ex fuel (compile o acc t) d) (sp fuel acc t d).
+Proof.
+  intros Hwfu. induction fuel as [|f IH]; intros t acc d H1 H2 H3.
+  - apply types_agree; try assumption. intros cid acc' d' _. rewrite exec_MRec_O. apply agree_fuel_l.
+  - apply types_agree; try assumption. intros cid acc' d' Hd'. rewrite exec_MRec_S.
+    apply obj_agree; try assumption. intros acc'' t'' d'' W1 W2 W3. apply IH; assumption.
+Qed.
+
 End Main.
+
+(* ---------------------------------------------------------------- packaged for the property files *)
+Definition strict_opts (o : dopts) : Prop := o_coerce o = false.
+
+Theorem deserialize_agrees_with_spec u o fuel root t d :
+  strict_opts o -> wf_univ u o = true -> wf_ty t = true -> union_order_ok t = true -> wf_data d = true ->
+  agree (deserialize u o fuel root t d) (spec_deserialize u o fuel root t d).
+Proof. intros S W. unfold deserialize, spec_deserialize. apply exec_spec_agree; assumption. Qed.
+
+(* accept <-> conform, value = typed image, never a crash (whenever the fuel suffices on both sides) *)
+Corollary deserialize_ok_iff u o fuel root t d :
+  strict_opts o -> wf_univ u o = true -> wf_ty t = true -> union_order_ok t = true -> wf_data d = true ->
+  deserialize u o fuel root t d <> RFuel -> spec_deserialize u o fuel root t d <> SFuel ->
+  (forall v, deserialize u o fuel root t d = ROk v <-> spec_deserialize u o fuel root t d = SOk v)
+  /\ ((exists e, deserialize u o fuel root t d = RErr e) <-> spec_deserialize u o fuel root t d = SRej)
+  /\ (forall w, deserialize u o fuel root t d <> RCrash w).
+Proof.
+  intros S W T1 T2 D NF1 NF2. pose proof (deserialize_agrees_with_spec u o fuel root t d S W T1 T2 D) as A.
+  destruct (deserialize u o fuel root t d) eqn:E1; destruct (spec_deserialize u o fuel root t d) eqn:E2;
+    simpl in A; try contradiction; try congruence; subst.
+  - split; [intros v'; split; intros X; congruence|]. split; [split; [intros [e X]; discriminate|discriminate]|intros; discriminate].
+  - split; [intros v'; split; discriminate|]. split; [split; [reflexivity|intros _; eexists; reflexivity]|intros; discriminate].
+Qed.
